@@ -20,7 +20,8 @@ from tree import Forest, merge  # noqa: E402
 
 # two event kinds without default handlers
 KINDS = {1: EVENT_KIND.GIR_DATA_MODEL_GENERATED, 2: EVENT_KIND.P2STATE_BUILTIN_FUNCTION_BEFORE}
-LANG = {"py": "python", "js": "javascript", "%": "%"}
+# the two model languages are real names one of which contains the other: matching must be by equality, whatever form the registration took
+LANG = {"py": "java", "js": "javascript", "%": "%"}
 
 
 class Token:
